@@ -12,11 +12,12 @@ from gram import Bin, BoolOp, Call, Cmp, Eq, IfE, Neg, Not, Num, Program, Var, V
 ATOMS_QUICK: List[Any] = [
     Var('X'), Var('X', off=-1), Var('Z', off=1), Var('Y', off=-1), Var('Y'),
     Var('alpha_1', 'p'), Var('e', 'e'), Num('2'), Num('0.5'),
+    Var('_a1', off=-1),   # special name shapes are crossed with a non-zero offset (seeded change C01_mut1)
 ]
 ATOMS_FULL: List[Any] = ATOMS_QUICK + [
     Var('_a1'), Var('is_open'), Var('Pin', off=-2), Var('not_X'), Var('exp'), Var('log', off=-1), Var('max'),
     Var('X', off=-12), Var('Z', off=2), Var('beta', 'p', off=-1), Var('e', 'e', off=1), Num('1'), Num('10.25'),
-    Var('x'), Var('t1'),
+    Var('x'), Var('t1'), Var('_p', 'p', off=-1), Var('_e', 'e', off=1), Var('is_open', off=1), Var('exp', off=-1),
 ]
 BINOPS = ['+', '-', '*', '/', '**']
 CALLS1 = ['exp', 'log', 'abs', 'np.sqrt', 'myexp']
